@@ -935,6 +935,28 @@ var _ rpc.Resources
 //@   loop 1 invariant callcount("unqueueEvents") == old(callcount("unqueueEvents"))
 //@   loop 1 invariant !(old(s.state) == stateDisposed || old(s.state) == stateSent || old(s.err) != nil)
 
+// --- resource ids towards services and towards the client (C10) ---
+
+// ExpandCID replaces the connection-id tag by this connection's own id.
+//@ func (*wsConn).ExpandCID
+//@   requires c != nil
+//@   ensures[C10] result == ufStr_replaceAll(rid, "{cid}", c.cid)
+//@   assert[C10] strings.Replace#1: arg0 == rid && arg1 == "{cid}" && arg2 == c.cid && arg3 == 0 - 1
+//@   assigns nothing
+//@   safety[C15]
+
+// NewSubscription keeps the resource id exactly as the client wrote it (it is what every frame
+// to the client carries) and derives the name and query used towards services from the id with
+// the tag expanded to the subscriber's own connection id.
+//@ func NewSubscription
+//@   requires c != nil && c.(*wsConn) != nil
+//@   ensures[C10] result != nil && fresh(result) && result.rid == rid && result.c == c && result.state == stateLoading &&
+//@       result.queueFlag == queueReasonLoading && result.throttle == throttle && result.direct == 0 && result.indirect == 0 && result.indirectsent == 0
+//@   ensures[C10,C14] forall k int :: 0 <= k && k < len(result.resourceName) ==> result.resourceName[k] != '?'
+//@   assert[C10] parseRID#1: arg0 == ufStr_replaceAll(rid, "{cid}", c.(*wsConn).cid)
+//@   assigns alloc()
+//@   safety[C15]
+
 // --- reference bookkeeping (C02) ---
 
 // addReference: on success the reference table has an entry for the resource id pointing at the
@@ -1166,6 +1188,7 @@ var _ rpc.Resources
 //@   ensures[C06,C08] old(s.direct) <= 0 ==> wsframes == old(wsframes) && (forall x *Subscription :: x.direct == old(x.direct))
 //@   assigns wsframes, Subscription.direct, Subscription.state, Subscription.indirectsent, Subscription.indirect, Subscription.readyCallbacks,
 //@       Subscription.eventQueue, Subscription.throttle, Subscription.resourceSub, Subscription.refs, elems(s.c.(*wsConn).subs), pkgstate(rescache), cachecontainers()
+//@   assert[C10] rpc.NewEvent#1: arg0 == s.rid && arg1 == "unsubscribe"
 //@   safety[C15]
 
 //@ func (*Subscription).validateAccess
@@ -1241,6 +1264,7 @@ var _ rpc.Resources
 //@   assert[C02,C03] sub.OnReady#1: !sub.IsSent() && s.queueFlag & queueReasonLoading != 0 && sub.c == s.c && has(s.refs, old(event.Value.RID)) &&
 //@       s.refs[old(event.Value.RID)].sub == sub && wsframes == old(wsframes)
 //@   assert[C02] s.removeReference#1: arg0 == old(event.Value.RID) && old(event.Value.Type) == codec.ValueTypeReference
+//@   assert[C10] rpc.NewEvent#*: arg0 == s.rid && arg1 == event.Event
 //@   assert[C03] s.unsubscribeDirect#1: s.state == stateDeleted && arg0 == reserr.ErrDeleted && wsframes == old(wsframes) + ite(old(s.c.(*wsConn).ws) != nil, 1, 0)
 //@   safety[C15]
 
@@ -1254,6 +1278,7 @@ var _ rpc.Resources
 //@       callcount("ReleaseRPCResources") == old(callcount("ReleaseRPCResources")) && callcount("unqueueEvents") == old(callcount("unqueueEvents"))
 //@   ensures[C03] old(s.state) != stateDisposed ==> callcount("GetRPCResources") == old(callcount("GetRPCResources")) + 1 &&
 //@       callcount("ReleaseRPCResources") == old(callcount("ReleaseRPCResources")) + 1 && callcount("unqueueEvents") == old(callcount("unqueueEvents")) + 1
+//@   assert[C10] rpc.NewEvent#*: arg0 == s.rid && arg1 == event.Event
 //@   assert[C02] s.c.Send#2: predCovered(sub, r) && (forall x *Subscription :: x.c == s.c && x.state == stateToSend ==> predClosed(x, r))
 //@   assert[C03] sub.ReleaseRPCResources#1: wsframes == old(wsframes) + ite(old(s.c.(*wsConn).ws) != nil, 1, 0)
 //@   assert[C03] s.unqueueEvents#1: arg0 == queueReasonLoading && callcount("ReleaseRPCResources") == old(callcount("ReleaseRPCResources")) + 1
@@ -1274,6 +1299,7 @@ var _ rpc.Resources
 //@   ensures[C02,C03] event.Event == "change" ==> callcount("OnReady") > old(callcount("OnReady")) ||
 //@       (callcount("OnReady") == old(callcount("OnReady")) && (wsframes == old(wsframes) + ite(old(s.c.(*wsConn).ws) != nil, 1, 0) || (old(s.c.(*wsConn).disposing) && wsframes == old(wsframes))))
 //@   assert[C02] s.addReference#1: callcount("removeReference") == old(callcount("removeReference")) && wsframes == old(wsframes)
+//@   assert[C10] rpc.NewEvent#*: arg0 == s.rid && arg1 == event.Event
 //@   assert[C02] s.removeReference#1: wsframes == old(wsframes) && callcount("OnReady") == old(callcount("OnReady"))
 //@   assert[C02,C03] sub.OnReady#1: rangeidx4 == 0 ==> s.queueFlag & queueReasonLoading != 0 && wsframes == old(wsframes)
 //@   assert[C02] sub.OnReady#1: rangeidx4 == 0 ==> (forall j int :: 0 <= j && j < len(subs) ==> subs[j] != nil && subs[j].c == s.c)
@@ -1310,6 +1336,7 @@ var _ rpc.Resources
 //@       callcount("ReleaseRPCResources") == old(callcount("ReleaseRPCResources")) && callcount("unqueueEvents") == old(callcount("unqueueEvents"))
 //@   ensures[C03] old(s.state) != stateDisposed && old(count) <= 1 ==> callcount("unqueueEvents") == old(callcount("unqueueEvents")) + 1 &&
 //@       callcount("ReleaseRPCResources") == old(callcount("ReleaseRPCResources")) + len(subs)
+//@   assert[C10] rpc.NewEvent#*: arg0 == s.rid && arg1 == event.Event
 //@   assert[C02] s.c.Send#3: (forall j int :: 0 <= j && j < len(subs) ==> predCovered(subs[j], r)) && (forall x *Subscription :: x.c == s.c && x.state == stateToSend ==> predClosed(x, r))
 //@   assert[C02] s.c.Send#4: (forall j int :: 0 <= j && j < len(subs) ==> predCovered(subs[j], r)) && (forall x *Subscription :: x.c == s.c && x.state == stateToSend ==> predClosed(x, r))
 //@   assert[C03] sub.ReleaseRPCResources#1: rangeidx3 == 0 ==> wsframes == old(wsframes) + ite(old(s.c.(*wsConn).ws) != nil, 1, 0)
